@@ -20,6 +20,12 @@ CLAIMED = {
         "note": "Bound 4*(H*T+10)*eps*sum|terms|; non-finite inputs are skipped (counted); the direct pl() group is plain value generation and is labelled so in the evidence.",
         "technique": TECH + "exact-rational ledger reference model stepped through simulated time, market-data faults",
     },
+    "C06": {
+        "text": "Every Hedger.price operation in seeded worlds (7 criteria incl. two user subclasses relying on the default cash search, flat markets, single paths, listed hedges, clauses, initial states, n_times up to 3) is followed, under RNG replay (F7), by: explicit recomputation -mean(cash(portfolio, target=payoff)) on identical paths; price(payoff + k) - price(payoff) = k for the cash-invariant criteria (a last clause registered on a twin derivative); entropic risk measure price = compute_loss on identical paths; cash(x, target=z) = cash(x - z); on every produced P&L sample, incl. stacked multi-column and constant samples: criterion(constant sample at cash) = criterion(sample), min <= cash <= max, cash <= mean for risk-averse criteria, quadratic CVaR cash = -risk; a fresh clone (F3) quotes the same price, also after another actor re-simulated the underlier (F10).",
+        "design_ref": "DESIGN.md 6/C06",
+        "note": "Shift-equivariance is not asserted for the isoelastic (CRRA) criterion, which is not translation invariant; default-search criteria run in float64 only (bisect precision 1e-6 vs float32 ulp: termination is C19); non-finite P&L samples (a C18 matter) are skipped and counted.",
+        "technique": TECH + "relational checks between API calls on RNG-replayed identical paths, restart fault",
+    },
     "C11": {
         "text": "Well-formedness invariants (shape, documented buffer set, first column = requested or default initial state, finiteness, positivity of exponential-type prices, non-negative variances, volatility = sqrt(variance), dtype, buffers replaced entirely - no shared storage, old tensors untouched, no surviving column) are evaluated after EVERY simulate() of a primary, whoever triggered it (primary, derivative, compute_loss, price, fit, lazy materialisation; observed through an instance-level wrapper that also checks that n_paths / init_state were forwarded), in seeded histories with casts, default-dtype flips (F4) and re-simulation with changing shape (F10); plus direct calls of the nine generate_* functions with the same parameter swarm (n_steps >= 1, scalar/tuple initial states, float32/64, half precisions with default parameters). Both QE branches are counted by re-deriving psi from the produced path.",
         "design_ref": "DESIGN.md 6/C11",
